@@ -82,6 +82,15 @@ fn check_masks(ty: u8, bits: u128, sub: bool) -> CaseResult {
             ),
         ));
     }
+    if ty % 12 == 1 && want.len() <= 64 {
+        let x = b as u8;
+        let w8: Vec<u8> = want.iter().map(|&v| v as u8).collect();
+        if sub {
+            vcore::adaptors_agree("iter_submasks::<u8>", &w8, b as usize, || iter_submasks(x))?;
+        } else {
+            vcore::adaptors_agree("iter_supermasks::<u8>", &w8, b as usize, || iter_supermasks(x))?;
+        }
+    }
     if (b >> (w - 1)) & 1 == 1 {
         st.nontrivial = true;
         st.label("sign-bit-set");
@@ -171,6 +180,10 @@ fn check_iter_perm(data: &[u8]) -> CaseResult {
         ));
     }
     st.size = got.len() as u64;
+    if want.len() <= 130 {
+        vcore::adaptors_agree(&format!("iter_permutations({:?})", data), &want, data.iter().map(|&x| x as usize).sum::<usize>() + data.len(), || iter_permutations(data.to_vec()))?;
+        st.label("iterator-adaptors-checked");
+    }
     let mut s = data.to_vec();
     s.sort();
     s.dedup();
@@ -202,6 +215,11 @@ fn check_grid(kind: u8, n: u8, m: u8, i: u8, j: u8) -> CaseResult {
         _ => iter_neighbours_8(n, m, i, j).collect(),
     };
     vensure!(got == want, "neighbours", "kind {} grid {}x{} cell ({},{}): got {:?}, expected {:?}", kind % 3, n, m, i, j, got, want);
+    match kind % 3 {
+        0 => vcore::adaptors_agree("iter_neighbours_4", &want, i + j, || iter_neighbours_4(n, m, i, j))?,
+        1 => vcore::adaptors_agree("iter_neighbours_4d", &want, i + j, || iter_neighbours_4d(n, m, i, j))?,
+        _ => vcore::adaptors_agree("iter_neighbours_8", &want, i + j, || iter_neighbours_8(n, m, i, j))?,
+    }
     if i == 0 || j == 0 || i == n - 1 || j == m - 1 {
         st.nontrivial = true;
         st.label("border-cell");
